@@ -70,7 +70,9 @@ class Stall(ConnFamily):
                         evs += [["tick", 100], ["d", (req[k:k + 1]).hex() or "00"], ["tick", 139], ["tick", 1], ["tick", 500]]  # trickle: never re-armed
                     cases.append({"mw": False, "up": True, "handler": ["a"], "evs": evs, "req": req.hex(), "need": need})
         mine = list(self.share(cases))
-        for c in mine:
+        for j, c in enumerate(mine):
+            if j % 16 == 5:
+                c = dict(c, newloop=True)      # this connection belongs to a later lifetime of the server in the same process
             yield c
         for _ in range(max(0, n - len(mine))):
             req, _ = rng.choice(REQS)
